@@ -13,14 +13,15 @@ pub fn prop() -> Prop {
   Prop {
     id: "C15",
     rule: "case = (source: hot Subject, hot create-handle, BehaviorSubject, never, or a cold `create` script that terminates at subscription; 0..2 pass-through operators, finalize (local or finalize_threads; thread-safe build), 0..2 further operators (pass-through, or take/first, or observe_on/delay on the virtual scheduler), optionally a second finalize; history of <= 8 steps: an item prefix, then complete / error / unsubscribe (or guard drop) in any order, each possibly repeated through cloned handles, more items in between). \
-           Oracle: the callback counter of every finalize is 0 until the first trigger (source completion, source error, unsubscription), equals the number of finalize operators when the triggering step returns, and never changes afterwards; when the trigger is a terminal and nothing asynchronous sits downstream, the subscriber had received that terminal before the callback ran. Non-trivial: >= 2 triggers in the history. Distinct by hash(case). Part `resubscribe`: a pipeline with 1..2 finalize operators over a cold source or a virtual-clock interval is built once; 2..3 clones are subscribed at generated (overlapping) times and each is unsubscribed 12 ticks after its start: the callbacks must have run exactly (number of finalize operators x number of subscriptions) times. Part `short` enumerates every trigger order of length <= 5 for the plain `hot.finalize()` pipeline.",
+           Oracle: the callback counter of every finalize is 0 until the first trigger (source completion, source error, unsubscription), equals the number of finalize operators when the triggering step returns, and never changes afterwards; when the trigger is a terminal and nothing asynchronous sits downstream, the subscriber had received that terminal before the callback ran. Non-trivial: >= 2 triggers in the history. Distinct by hash(case). Part `resubscribe`: a pipeline with 1..2 finalize operators over a cold source or a virtual-clock interval is built once; 2..3 clones are subscribed at generated (overlapping) times and each is unsubscribed 12 ticks after its start: the callbacks must have run exactly (number of finalize operators x number of subscriptions) times. Part `threads` (engine T): SubjectThreads -> finalize_threads -> probe; one thread sends 0..2 items and a terminal (complete or error, possibly twice through clones), another thread unsubscribes (possibly after an item of its own); schedule = <= 3 preemptions at lock-acquisition granularity (plus a yield inside the callback): after both threads have finished the callback has run exactly once, under every schedule. Part `short` enumerates every trigger order of length <= 5 for the plain `hot.finalize()` pipeline.",
     assumptions: &[
       "with take/first downstream of finalize only 'at most once, not before a trigger, exactly once by the time the source has terminated or the subscription was unsubscribed' is checked",
-      "racing threads are the engine-T part's job",
+      "threads part: sequentially consistent interleavings at lock-acquisition granularity",
     ],
     parts: vec![
       Part { name: "histories", run: run_random, tape_len: 64, quick_cases: 800_000, thorough_cases: 16_000_000, exhaustive_depth: None, exhaustive_budget: 0, exh_quick: false },
       Part { name: "resubscribe", run: run_resub, tape_len: 48, quick_cases: 200_000, thorough_cases: 4_000_000, exhaustive_depth: None, exhaustive_budget: 0, exh_quick: false },
+      Part { name: "threads", run: run_threads, tape_len: 24, quick_cases: 20_000, thorough_cases: 500_000, exhaustive_depth: None, exhaustive_budget: 0, exh_quick: false },
       Part { name: "short", run: run_short, tape_len: 16, quick_cases: 0, thorough_cases: 0, exhaustive_depth: Some(10), exhaustive_budget: 10_000_000, exh_quick: true },
     ],
   }
@@ -318,4 +319,101 @@ fn run_resub(c: &mut dyn Choices, ctx: &Ctx) -> Outcome {
     None
   };
   Outcome { verdict, nontrivial: true, hash: hash_of(&(&node, &starts, threads)), labels: vec!["part:resubscribe"], notes: vec![], desc }
+}
+
+
+// ------------------------------------------------------------ engine T part
+
+fn run_threads(c: &mut dyn Choices, ctx: &Ctx) -> Outcome {
+  use crate::engine_t::{self, Verdict as TV};
+  use rxrust::prelude::*;
+  use std::sync::atomic::{AtomicUsize, Ordering};
+  use std::sync::{Arc, Mutex};
+  let items = c.pick(3);
+  let error = c.flag();
+  let twice = c.pick(3) == 0;
+  let b_item = c.flag();
+  let k = c.pick(4);
+  let mut preemptions: Vec<(u64, usize)> = (0..k).map(|_| (1 + c.pick(25) as u64, c.pick(2))).collect();
+  preemptions.sort();
+  preemptions.dedup_by_key(|p| p.0);
+  crate::vtime::reset(crate::vtime::Mode::Fifo);
+  let runs = Arc::new(AtomicUsize::new(0));
+  let subject = SubjectThreads::<i64, u8>::default();
+  let r2 = runs.clone();
+  struct Quiet;
+  impl Observer<i64, u8> for Quiet {
+    fn next(&mut self, _: i64) {
+      crate::engine_t::explicit_yield();
+    }
+    fn error(self, _: u8) {
+      crate::engine_t::explicit_yield();
+    }
+    fn complete(self) {
+      crate::engine_t::explicit_yield();
+    }
+    fn is_finished(&self) -> bool {
+      false
+    }
+  }
+  let sub = subject
+    .clone()
+    .finalize_threads(move || {
+      r2.fetch_add(1, Ordering::SeqCst);
+      crate::engine_t::explicit_yield();
+    })
+    .actual_subscribe(Quiet);
+  let sub = Arc::new(Mutex::new(Some(sub)));
+  let a: Box<dyn FnOnce() + Send> = {
+    let mut s = subject.clone();
+    Box::new(move || {
+      for i in 0..items {
+        s.next(i as i64);
+      }
+      engine_t::call_begin();
+      let t = s.clone();
+      if error {
+        t.error(5)
+      } else {
+        t.complete()
+      }
+      if twice {
+        s.clone().complete();
+      }
+      engine_t::call_end();
+    })
+  };
+  let b: Box<dyn FnOnce() + Send> = {
+    let mut s = subject.clone();
+    let sub = sub.clone();
+    Box::new(move || {
+      if b_item {
+        s.next(77);
+      }
+      engine_t::call_begin();
+      let u = sub.lock().unwrap().take();
+      if let Some(u) = u {
+        u.unsubscribe();
+      }
+      engine_t::call_end();
+    })
+  };
+  let stats = engine_t::run_threads(vec![a, b], preemptions.clone(), 2_000);
+  let n = runs.load(Ordering::SeqCst);
+  let verdict = match &stats.verdict {
+    TV::Completed => {
+      if n != 1 {
+        Verdict::Violation { sig: format!("threads:{}:finalize_threads", if n == 0 { "not-run" } else { "ran-twice" }), detail: format!("a terminating thread raced an unsubscribing thread: the finalize callback ran {n} time(s)") }
+      } else {
+        Verdict::Ok
+      }
+    }
+    other => Verdict::Violation { sig: format!("threads:{}:finalize_threads", match other { TV::Deadlock(_) => "deadlock", TV::LostWakeup(_) => "lost-wakeup", TV::Panic(_) => "panic", _ => "livelock" }), detail: format!("{other:?}") },
+  };
+  let desc = if ctx.want_desc || matches!(verdict, Verdict::Violation { .. }) {
+    Some(json!({"thread A": format!("{items} item(s), then {}{}", if error {"error"} else {"complete"}, if twice {", then complete through a clone"} else {""}), "thread B": format!("{}unsubscribe", if b_item {"next(77), "} else {""}), "preemptions(step->thread)": preemptions, "callback_runs": n}))
+  } else {
+    None
+  };
+  Outcome { verdict, nontrivial: stats.preemptions_taken > 0, hash: hash_of(&(items, error, twice, b_item, &preemptions)), labels: vec!["part:threads"], notes: vec![], desc }
 }
